@@ -374,6 +374,111 @@ async fn settled_case(rep: &mut Report, rng: &mut Rng, tx: Tx, tr: Transport, rc
   let _ = tokio::time::timeout(Duration::from_secs(12), rctx.term()).await;
 }
 
+/// (bounded) a bounded LINGER is a bound: the closing socket must let go of a connection whose peer does not drain
+/// (inproc, RCVHWM 4, never reads; a backlog is queued) once LINGER has expired - observed at the closing socket's own monitor, which
+/// must report the disconnect within LINGER + slack of the close() call. close() itself must return promptly too.
+async fn bounded_linger_case(rep: &mut Report, tx: Tx, linger_ms: i32, how: How) {
+  let ctx = util::new_ctx();
+  let (st, rt) = match tx {
+    Tx::Push => (SocketType::Push, SocketType::Pull),
+    Tx::Router => (SocketType::Router, SocketType::Dealer),
+    Tx::Dealer => (SocketType::Dealer, SocketType::Router),
+    Tx::Pub => (SocketType::Pub, SocketType::Sub),
+  };
+  let r = ctx.socket(rt).unwrap();
+  util::set_i32(&r, opt::RCVHWM, 4).await;
+  if rt == SocketType::Dealer {
+    r.set_option_raw(opt::ROUTING_ID, b"RX").await.unwrap();
+  }
+  let mon = r.monitor(256).await.unwrap();
+  let ep = match util::bind_fresh(&r, Transport::Inproc).await {
+    Ok(e) => e,
+    Err(e) => {
+      rep.inconclusive(format!("bind {e}"));
+      return;
+    }
+  };
+  let s = ctx.socket(st).unwrap();
+  // room on the sender's side, so that part of the backlog waits in ITS queue when it closes
+  util::set_i32(&s, opt::SNDHWM, 100).await;
+  util::set_i32(&s, opt::SNDTIMEO, 0).await;
+  util::set_i32(&s, opt::LINGER, linger_ms).await;
+  if st == SocketType::Router {
+    s.set_option(opt::ROUTER_MANDATORY, true).await.unwrap();
+  }
+  let smon = s.monitor(256).await.unwrap();
+  if s.connect(&ep).await.is_err() {
+    rep.inconclusive("connect failed".to_string());
+    return;
+  }
+  tokio::time::sleep(Duration::from_millis(80)).await;
+  // produce, unhurried, until the pipeline refuses: the peer's queue, its reader's hand and the connection's channel
+  // are then all full, so the closing socket really has something to linger for
+  let mut accepted = 0;
+  for k in 0..200u32 {
+    let body = k.to_be_bytes().to_vec();
+    let res = if st == SocketType::Router { s.send_multipart(vec![util::msg(b"RX".to_vec(), true), util::msg(body, false)]).await } else { s.send(util::msg(body, false)).await };
+    if res.is_ok() {
+      accepted += 1;
+    } else if st != SocketType::Pub {
+      break;
+    }
+    tokio::time::sleep(Duration::from_millis(2)).await;
+  }
+  // drain monitor events so far (Accepted/Connected ...)
+  while let Ok(Ok(_)) = tokio::time::timeout(Duration::from_millis(10), mon.recv()).await {}
+  while let Ok(Ok(_)) = tokio::time::timeout(Duration::from_millis(10), smon.recv()).await {}
+  let t0 = Instant::now();
+  let closed = tokio::time::timeout(util::scaled(Duration::from_secs(20)), async {
+    match how {
+      How::Drop => drop(s),
+      _ => {
+        let _ = s.close().await;
+      }
+    }
+  })
+  .await;
+  let close_time = t0.elapsed();
+  let bound = Duration::from_millis(linger_ms.max(0) as u64) + util::scaled(Duration::from_millis(2000));
+  let mut torn_down: Option<Duration> = None;
+  // the disconnect is looked for on the closing socket's own monitor and on the peer's
+  while t0.elapsed() < bound && torn_down.is_none() {
+    let left = bound.saturating_sub(t0.elapsed());
+    tokio::select! {
+      e = mon.recv() => {
+        // (the peer's monitor reports the pipe's detach at once, whatever LINGER is: recorded, not the verdict)
+        match e {
+          Ok(rzmq::socket::SocketEvent::Disconnected { .. }) => rep.count("bounded_peer_saw_disconnect", 1),
+          Ok(_) => {}
+          Err(_) => tokio::time::sleep(Duration::from_millis(20)).await,
+        }
+      }
+      e = smon.recv() => {
+        match e {
+          Ok(rzmq::socket::SocketEvent::Disconnected { .. }) => torn_down = Some(t0.elapsed()),
+          Ok(_) => {}
+          Err(_) => tokio::time::sleep(Duration::from_millis(20)).await,
+        }
+      }
+      _ = tokio::time::sleep(left) => {}
+    }
+  }
+  let cfg = format!("bounded: {:?} over inproc, {} messages accepted towards a peer that never reads (RCVHWM 4, sender SNDHWM 100), LINGER={} ms, via {:?}", tx, accepted, linger_ms, how);
+  rep.case(&("bounded", tx, linger_ms, how), true);
+  if let Some(t) = torn_down {
+    rep.max(&format!("max:bounded_linger_teardown_ms[linger={}]", linger_ms), t.as_millis() as u64);
+  }
+  if closed.is_err() {
+    rep.violation(format!("close_never_returned|{:?}", how), format!("{}: close() did not return within 20 s", cfg), json!({"config": cfg}));
+  } else if close_time > Duration::from_millis(linger_ms.max(0) as u64) + util::scaled(Duration::from_secs(3)) {
+    rep.violation(format!("close_outlasts_linger|{:?}", how), format!("{}: close() took {:?}", cfg, close_time), json!({"config": cfg}));
+  }
+  if torn_down.is_none() {
+    rep.violation(format!("bounded_linger_never_expires|tx={:?}", tx), format!("{}: {:?} after the close (LINGER + 2 s) the closing socket had still not reported the connection torn down (its monitor's Disconnected event) - it keeps lingering", cfg, bound), json!({"config": cfg, "close_ms": close_time.as_millis() as u64}));
+  }
+  let _ = tokio::time::timeout(Duration::from_secs(12), ctx.term()).await;
+}
+
 fn settled_layer(rep: &mut Report, rng: &mut Rng, rt: &tokio::runtime::Runtime, args: &Args) {
   let mut idx = 0usize;
   // inproc, no pauses at all: connect(), burst, close() back to back (the binder may not even have attached the pipe yet)
@@ -441,6 +546,25 @@ fn main() {
     for k in 0..args.get_usize("cases", 30) {
       let tx = if k % 2 == 0 { Tx::Push } else { Tx::Router };
       let _ = util::guarded(&rt, case(&mut rep, &mut rng, tx, Transport::Inproc, -1, Depth::BeyondKernel, How::Close, false));
+    }
+    rep.merge_hooks();
+    rep.emit();
+    return;
+  }
+  if args.only.as_deref() == Some("bounded") {
+    let mut i = 0;
+    // (DEALER is left out: over inproc its bound ROUTER peer's monitor reports no Disconnected event even for LINGER 0,
+    // so the observation point does not exist there; a dropped handle without term() does not close the socket at all)
+    for tx in [Tx::Push, Tx::Router, Tx::Pub] {
+      for linger in [300, 1000, 0, 50] {
+        for how in [How::Close] {
+          i += 1;
+          if !args.mine(i) || (!args.thorough() && linger == 50) {
+            continue;
+          }
+          let _ = util::guarded(&rt, bounded_linger_case(&mut rep, tx, linger, how));
+        }
+      }
     }
     rep.merge_hooks();
     rep.emit();
